@@ -22,6 +22,8 @@ pub enum Case
     Text { s: String },
     /// a directory tree: entries (path components index, content index), and a point change
     Tree { entries: Vec<(u8, u8, u8)>, change: u8, pick: u16, order_seed: u64 },
+    /// a saved libFuzzer input of the decode62 target (hex)
+    FuzzBytes { hex: String },
 }
 
 fn fill_bytes(len: usize, fill: u8, seed: u64) -> Vec<u8>
@@ -260,6 +262,13 @@ pub fn check(c: &Case) -> Result<(), String>
         Case::Value { hex } => check_value(hex),
         Case::Text { s } => check_text(s),
         Case::Tree { entries, change, pick, order_seed } => check_tree(entries, *change, *pick, *order_seed),
+        Case::FuzzBytes { hex } =>
+        {
+            let data = crate::verif::fuzzrun::unhex(hex);
+            check_text(&String::from_utf8_lossy(&data))?;
+            if data.len() >= 32 { check_value(&crate::verif::sha256::hex(&data[..32]))?; }
+            Ok(())
+        }
     }
 }
 
@@ -362,6 +371,7 @@ fn nontrivial(c: &Case) -> bool
         Case::Value { hex } => { let v = hexval(hex); b62::encode(&v).ends_with('0') }
         Case::Text { s } => s.len() >= 40 && s.len() <= 46,
         Case::Tree { .. } => true,
+        Case::FuzzBytes { .. } => true,
     }
 }
 
@@ -373,6 +383,7 @@ pub fn test_case(c: &Case, stats: &mut Stats) -> Result<(), String>
         Case::Value { .. } => "value",
         Case::Text { s } => if b62::decode(s).is_ok() { "text-valid" } else { match b62::decode(s) { Err(b62::DecodeErr::Length) => "text-bad-length", Err(b62::DecodeErr::Character) => "text-foreign-char", _ => "text-overflow" } },
         Case::Tree { .. } => "tree",
+        Case::FuzzBytes { .. } => "fuzz-input",
     };
     stats.class(class);
     let nt = nontrivial(c);
@@ -473,6 +484,22 @@ pub fn run(ctx: &Ctx) -> Report
     }
     let cases = ctx.tier.pick(60000u32, 1200000);
     rep.absorb(drive::drive(ctx, 15, cases, strategy, test_case));
+    if ctx.tier == crate::verif::drive::Tier::Thorough
+    {
+        let o = crate::verif::fuzzrun::run_target(ctx, "decode62", 4_000_000, 8, 128);
+        crate::verif::fuzzrun::record(&mut rep.stats, &o, "decode62");
+        rep.stats.evaluations += o.runs;
+        for c in o.crashes.iter()
+        {
+            let case = Case::FuzzBytes { hex: crate::verif::fuzzrun::hex(c) };
+            match crate::verif::sched::catch_quiet(|| check(&case))
+            {
+                Ok(Ok(())) => { rep.stats.class("libfuzzer-crash-not-confirmed-in-process"); eprintln!("libFuzzer saved an input that the in-process oracle accepts; not reported"); }
+                Ok(Err(m)) => rep.failures.push(drive::Failure { reason: m, case: json!(case) }),
+                Err(m) => rep.failures.push(drive::Failure { reason: format!("panic in the code under test: {}", m), case: json!(case) }),
+            }
+        }
+    }
     rep
 }
 
